@@ -23,6 +23,7 @@ import (
 	"errors"
 
 	"google.golang.org/grpc/internal/buffer"
+	"google.golang.org/grpc/internal/verifhook"
 )
 
 // ErrSerializerClosed is returned by ScheduleAndWait if the CallbackSerializer
@@ -111,10 +112,14 @@ func (cs *CallbackSerializer) run(ctx context.Context) {
 	context.AfterFunc(ctx, cs.callbacks.Close)
 
 	// Run all callbacks.
+	verifhook.At("ser.recv", cs)
 	for cb := range cs.callbacks.Get() {
 		cs.callbacks.Load()
+		verifhook.At("ser.run", cs)
 		cb(ctx)
+		verifhook.At("ser.recv", cs)
 	}
+	verifhook.At("ser.exit", cs)
 }
 
 // Done returns a channel that is closed after the context passed to
